@@ -9,7 +9,7 @@ os.chdir(HERE)
 N = int(sys.argv[1]) if len(sys.argv) > 1 else 4000
 SEED = sys.argv[2] if len(sys.argv) > 2 else '424242'
 BINS = ['apptoken', 'abi', 'abi.wide', 'mem', 'mem.p64', 'mem.pvoid', 'callback', 'callback.tls', 'invoke', 'toctou', 'toctou.asan', 'bulk', 'bulk.asan', 'bulk.nogrant',
-        'transition.hooks', 'transition.timing', 'transition.both', 'transition.inonly', 'transition.outonly', 'threads', 'threads.tls', 'threads.tsan']
+        'transition.hooks', 'transition.timing', 'transition.both', 'transition.inonly', 'transition.outonly', 'transition.wide', 'threads', 'threads.tls', 'threads.tsan']
 subprocess.run(['make', '-s', '-j16', 'all'], check=True)
 bad = 0
 for b in BINS:
